@@ -30,7 +30,7 @@ F_LINE = "ItpLine.parse_itp_line+line"
 F_FILE = "ItpFile.__init__+write"
 
 
-def info(prop):
+def _info_bounded(prop):
     return {
         "level": "other",
         "functions": ["gaddlemaps/parsers/_itp_parse.py::ItpLine.parse_itp_line",
@@ -914,7 +914,7 @@ def task_guards(seed):
 # ---------------------------------------------------------------------------
 
 
-def tasks(prop, tier, seed):
+def _tasks_bounded(prop, tier, seed):
     try:    # warm the parent so that the forked children do not each pay the import
         import gaddlemaps.parsers  # noqa: F401
     except Exception:
@@ -940,7 +940,7 @@ def tasks(prop, tier, seed):
     return t
 
 
-def replay(prop, cex):
+def _replay_bounded(prop, cex):
     level = cex.get("level")
     clause = cex.get("clause")
     if level == "line":
@@ -982,3 +982,46 @@ def replay(prop, cex):
             "expected": {"sections_in_order": exp["order"], "header": exp["header"][:20],
                          "lines": {n: exp["sections"][n][:20] for n in exp["order"][:10]}},
             "inputs": cex}
+
+
+# ---------------------------------------------------------------------------
+# deductive part (contracts/d16_itp_vc.py) wired in
+
+
+def info(prop):
+    from . import d16_itp_vc as D
+    d = _info_bounded(prop)
+    h = D.deductive_info()
+    done = tuple(f.split(" ")[0].split("::")[1] for f in h["functions"])
+    d["functions"] = h["functions"] + [f for f in d.get("functions", []) if not f.endswith(done)]
+    d["stubs"] = h["stubs"] + d.get("stubs", [])
+    d["assumptions"] = h["assumptions"] + d.get("assumptions", [])
+    d["explanation"] = h["explanation"] + d.get("explanation", "").replace(
+        "Bounded run-time contract checks (no deductive obligation: regular expressions and split/join chains). ",
+        "Bounded part (run-time contract checks; regular expressions and split/join chains are outside what the SMT string solvers decide here): ")
+    d["trusted_base"] = ["z3 5.1", "vf/pyvc.py + vf/seq.py"] + d.get("trusted_base", [])
+    return d
+
+
+def tasks(prop, tier, seed):
+    from . import d16_itp_vc as D
+    return list(D.deductive_tasks(prop, tier, seed)) + list(_tasks_bounded(prop, tier, seed))
+
+
+def replay(prop, cex):
+    if cex.get("kind") == "vc":
+        # a failed proof obligation of the section bookkeeping: look for a file whose round trip fails on the real code
+        cand = [t for t in _tasks_bounded(prop, "quick", 0) if t[0].startswith(("file/generic", "file/typed", "shipped"))][:6]
+        for name, fn, args, _lim in cand:
+            try:
+                obs = fn(*args)
+            except Exception:
+                continue
+            for o in obs:
+                if o.get("status") == "refuted" and o.get("kind") != "guard" and o.get("cex"):
+                    r = _replay_bounded(prop, o["cex"])
+                    if r and r.get("reproduced"):
+                        r["note"] = f"failed obligation {cex.get('obligation') or cex.get('clause') or cex.get('signature')} manifests on the real ItpFile"
+                        return r
+        return {"reproduced": False, "inputs": cex, "note": "no failing file found in the bounded scope"}
+    return _replay_bounded(prop, cex)
